@@ -47,8 +47,9 @@ func main() {
 		}
 		d := model.Generate(r, prof)
 		var buf bytes.Buffer
-		if err := md.Convert([]byte(d.Markdown), &buf); err != nil {
-			panic(err)
+		if !convert(md, []byte(d.Markdown), &buf) {
+			sig["(goldmark panicked)"]++
+			continue
 		}
 		ok, diff := mon.CompareHTMLTokensWeak([]byte(d.HTML), buf.Bytes())
 		if !ok {
@@ -82,6 +83,18 @@ func main() {
 			fmt.Fprintf(os.Stderr, "  %6d  %s\n", v, k)
 		}
 	}
+}
+
+func convert(md goldmark.Markdown, src []byte, buf *bytes.Buffer) (ok bool) {
+	defer func() {
+		if recover() != nil {
+			ok = false
+		}
+	}()
+	if err := md.Convert(src, buf); err != nil {
+		panic(err)
+	}
+	return true
 }
 
 func fmtCheck(n int, seed uint64, show int, no string) {
